@@ -49,7 +49,7 @@ func localAddrs() []string {
 
 type c09Server struct {
 	udp   *net.UDPConn
-	ql    *quic.Listener
+	ql    vk.Acceptor
 	mu    sync.Mutex
 	conns []*quic.Conn
 	token map[*quic.Conn]string
@@ -60,7 +60,7 @@ func newC09Server() (*c09Server, error) {
 	if err != nil {
 		return nil, err
 	}
-	ql, err := quictransport.ListenWithConfig(context.Background(), udp, vk.Quiet, vk.QUICConfig(true, 10*time.Second))
+	ql, _, err := vk.ListenApp(udp, vk.QUICConfig(true, 10*time.Second))
 	if err != nil {
 		udp.Close()
 		return nil, err
